@@ -173,7 +173,14 @@ def run(tier):
     import vtcheck
     import argcheck
     S8 = vtcheck.Session(PROP, 1)
-    argcheck.run(S8, tier)
+    try:
+        argcheck.run(S8, tier)
+    except Inconclusive as e:
+        # the native validation of the call clause goes through the call arms of the pass; when those arms already have a
+        # natively replayed violation (error-kept), that violation is the report and the call clause is left undecided
+        if not [p_ for p_ in MC.pending if ':error-kept' in p_[0] or ':accepted-stays-call' in p_[0]]:
+            raise
+        log('call clause undecided (%s): the call arms themselves violate error-kept, reported below' % str(e)[:120])
     MC.queries += S8.queries
     MC.solver_s += S8.solver_s
     MC.exec_s += S8.exec_s
@@ -200,7 +207,7 @@ def run(tier):
         if key in known:
             log('KNOWN-FINDING: property=%s %s' % (PROP, what))
             continue
-        tool = 'call-eval' if qname.startswith('call:') else 'fcall-eval' if qname.startswith('copy:') else ('typer-eval' if line.startswith('declared ') else 'mutpass-eval')
+        tool = 'call-eval' if (qname.startswith('call:') or qname.endswith(':error-kept')) else 'fcall-eval' if qname.startswith('copy:') else ('typer-eval' if line.startswith('declared ') else 'mutpass-eval')
         rp = write_replay(PROP, key, {'property': PROP, 'query': qname, 'statement': text, 'request': line, 'native': got_, 'tool': tool,
                                       'how': 'echo "%s" | pv_replay %s' % (line, tool)})
         out_v.append((what, rp))
